@@ -88,6 +88,21 @@ def run_reply(case, data, extra_cfg=None, exc=(True, True, True)):
     return verdict.replace('other:', '')
 
 
+def vb(rng, n):
+    """value bytes for a field that padding, trimming or "is it all zeros" logic could touch: mostly random, but a quarter end in 0x00 after a non-zero
+    prefix, a tenth are all zeros, a few begin with 0x00 - so that a genuine trailing zero meets every such rule in every run"""
+    if n == 0:
+        return b''
+    r = rng.random()
+    if r < 0.10:
+        return bytes(n)
+    if r < 0.35:
+        return bytes(rng.randrange(1, 256) for _ in range(n - 1)) + b'\x00'
+    if r < 0.40:
+        return b'\x00' + bytes(rng.randrange(1, 256) for _ in range(n - 1))
+    return bytes(rng.randrange(256) for _ in range(n))
+
+
 def scramble(obj, depth=0, seen=None):
     """edit everything that can be edited in what a call handed back: lists and dicts emptied and refilled with junk, flags flipped, numbers changed,
     nested objects likewise (a caller may do all of this to its own result)"""
@@ -252,7 +267,7 @@ def gen_rdbi(rng, n):
         for d in lst:
             kind = DIDS.get(d, default)
             ln = kind[1] if kind[1] is not None else rng.randrange(0, 5)
-            v = bytes(rng.randrange(0x20, 0x7F) for _ in range(ln)) if rng.random() < 0.8 else bytes(ln)
+            v = (bytes(rng.randrange(0x20, 0x7F) for _ in range(ln)) if rng.random() < 0.5 else vb(rng, ln)) if rng.random() < 0.8 else bytes(ln)
             vals[d] = v
             echo.append(('data identifier', len(good), 2))
             good += d.to_bytes(2, 'big') + v
@@ -348,7 +363,7 @@ def gen_io(rng, n):
         cp = rng.choice([None, 0, 1, 2, 3])
         tol = rng.random() < 0.6
         ln = e['codec'][1] if e['codec'][1] is not None else rng.randrange(0, 4)
-        dec = rb(rng, ln)
+        dec = vb(rng, ln)
         good = did.to_bytes(2, 'big') + (bytes([cp]) if cp is not None else b'') + dec
         expect = 'io %d %s %s' % (did, on(cp), ob(dec))
         vals = list(rb(rng, ln)) if e['codec'][0] == 'B' else [rb(rng, ln)]
